@@ -297,7 +297,7 @@ var long = ev.NewCheck("C08", "strings-4-64",
 		return Case{b}
 	}, run)
 
-func TestPropLongStrings(t *testing.T) { long.Rapid(t, 6000, 60000) }
+func TestPropLongStrings(t *testing.T) { long.Rapid(t, 6000, 300000) }
 
 // messages the reader produces on generated files
 type FileCase struct{ File smfref.File }
@@ -333,6 +333,6 @@ var fromReader = ev.NewCheck("C08", "reader-messages",
 		return
 	})
 
-func TestPropReaderMessages(t *testing.T) { fromReader.Rapid(t, 300, 3000) }
+func TestPropReaderMessages(t *testing.T) { fromReader.Rapid(t, 300, 20000) }
 
 func TestReplay(t *testing.T) { ev.ReplayAll(t) }
